@@ -231,28 +231,43 @@ def _eval_spec(R, E, **kw):
     return tuple(out[k] for k in S.EVAL_KEYS)
 
 
-FUNCS.append(Func("beat.evaluate", _eval_call, list(S.EVAL_KEYS), {"min_beat_time": [5.0, 5.5]}, build, model,
+FUNCS.append(Func("beat.evaluate", _eval_call, list(S.EVAL_KEYS), {"min_beat_time": [5.0, 5.5, 0.5]}, build, model,
                   _eval_spec, {k: "SKIP" for k in S.EVAL_KEYS}))
 
 TASK = Task("beat", FUNCS, pair_space, single_space)
 
 
 # ---- edge relations (C08): a common time offset must not change any beat score; the lattice is dyadic so x + d is
-# exact, and every beat stays >= the 5 s trim time
+# exact.  evaluate() trims beats before min_beat_time (5 s unless configured): the property only covers shifts that keep
+# every beat, before and after the shift, at or after the trim time - so the backward shift by 4 s is decided for
+# evaluate() only with min_beat_time=0.5 (and for the individual metrics, which do not trim, always)
 def _shift(state):
     out = []
-    for d in (1 / 16.0, 1.0, 1000.0):
-        out.append(("+%g" % d, (tuple(float(Fr(x) + Fr(d)) for x in state[0]),
+    for d in (1 / 16.0, 1.0, 1000.0, -4.0):
+        out.append(("%+g" % d, (tuple(float(Fr(x) + Fr(d)) for x in state[0]),
                                 tuple(float(Fr(x) + Fr(d)) for x in state[1]))))
     return out
 
 
-def _shift_ok(state, fname):
-    # evaluate() trims beats before 5 s: the property only covers shifts that keep every beat >= the trim time
-    return fname != "beat.evaluate" or all(x >= 5.0 for side in state for x in side)
+def _shift_okc(state, new_state, fname, cfg):
+    if fname != "beat.evaluate":
+        return True
+    t = cfg.get("min_beat_time", 5.0)
+    return all(x >= t for st in (state, new_state) for side in st for x in side)
 
 
-TASK.edges = {"shift": {"apply": _shift, "funcs": None, "keys": None, "ok": _shift_ok}}
+def edge_space(tier, phase):
+    """two-execution relations run on every configuration, so the unstructured part of the pair space is reduced to
+    multisets of <= 2 beats per side (quick); the structured families (regular references and their edits, metrical
+    switches, Goto error patterns) are kept whole"""
+    sp = pair_space(tier, phase)
+    if tier == "thorough":
+        return sp
+    return [st for st in sp if max(len(st[0]), len(st[1])) != 3]
+
+
+TASK.edge_space = edge_space
+TASK.edges = {"shift": {"apply": _shift, "funcs": None, "keys": None, "okc": _shift_okc, "cfgs": "all"}}
 
 
 # ---- repository fixtures: model bound to the recorded outputs (fixture_check), and perturbed fixtures as extra
